@@ -38,6 +38,18 @@ CHECKS = {
    "bounded-exhaustive enumeration of generated running configurations against an independent selection rule",
    "Product of comment kinds x active attribute forms x extra/duplicate attributes x all attribute orders x statement bodies x names (incl. XML metacharacters), every single statement and every ordered pair of a representative subset, through the agent's real candidate reader.",
    "The rpsl crate's parser defines 'parseable expression'.", "DESIGN.md §2 E2 (C16 sweep)"),
+ "C08": ("E3", "exploration",
+   "bounded-exhaustive enumeration of the reply grammar through the real session (all child sequences up to a length bound)",
+   "Every rpc-reply whose children are a sequence (length <= 3 quick / 4 thorough) over {positive indication, rpc-error of severity error / warning (plain and with every optional leaf), comment, foreign element, the other reply types' indication}, for each of the four reply types (ok, data, bare Junos, load-configuration with every placement inside/outside load-configuration-results and every load-error-count) is delivered to a real outstanding request; Ok requires the positive indication and no error-severity rpc-error anywhere, RpcError must list exactly the document's rpc-errors in order.",
+   "Documents are drawn from the stated grammar, not all XML; quick-xml is the parser under test as used by the library.", "DESIGN.md §2 E3 C08"),
+ "C09": ("E3", "exploration",
+   "exhaustive capability-set x request-recipe matrix against an RFC 6241 table",
+   "395 request recipes (products of builder calls over datastores, filter kinds, URL schemes incl. prefix-related ones, option values, optional parameters, all Junos operations) against every relevant capability subset (quick) or all 2^11 x 8 capability sets (thorough), each on a freshly established real session; cells the RFC decides must be sent iff permitted.",
+   "The oracle table is a transcription of RFC 6241 sections 7-8; open cells are listed in the evidence and not judged.", "DESIGN.md §2 E3 C09"),
+ "C12": ("E3", "exploration",
+   "bounded-exhaustive hello grammar through real session establishment, both exchange orders",
+   "Every hello of the grammar {base subsets} x {session-id shapes incl. 0, 2^32, duplicates, missing} x {namespace spellings} x element order x duplicate/truncated elements, in both orders of the simultaneous hello exchange; established iff well-formed, valid id and a base version in common with what the client put on the wire; version = highest common; the first request must be framed as the negotiated version requires.",
+   "MemTransport level; the framing clause on the real transports is added by E4.", "DESIGN.md §2 E3 C12"),
 }
 
 NOT_YET = "check not built yet (construction in progress; see DESIGN.md)"
